@@ -18,10 +18,10 @@ NA = {
 }
 CHECKS = {
  'C03': dict(technique='deterministic simulation: capacity-exhaustion fault injection (overflow degraded mode) with paired fault-free runs against a Boolean reference evaluator',
-   text='Seeded exploration of fault plans: a random subset of waveform memories is shrunk to the minimum capacity so that the overflow path (transitions discarded) actually runs, under option knobs, reuse batches and poisoned dead storage; every produced waveform (snapshot when its op finishes) and every captured value is compared with an independent gate-by-gate Boolean evaluator for initial value and final-value parity. The unfaulted clauses of the statement are pure functions and are only sampled as the separately counted fault-free tier.',
+   text='Seeded exploration of fault plans: a random subset of waveform memories is shrunk to the minimum capacity so that the overflow path (transitions discarded) actually runs, under option knobs, reuse batches and poisoned dead storage; every input waveform is compared with the assigned initial/final value right after s_to_c() (also when the slot held a multi-transition waveform before, and when inputs are rewritten between two propagations), every produced waveform (snapshot when its op finishes) and every captured value is compared with an independent gate-by-gate Boolean evaluator for initial value and final-value parity. The unfaulted clauses of the statement are pure functions and are only sampled as the separately counted fault-free tier.',
    ref='5.4', note='RefEval written from gate names; dyadic delays <= 64; pure-Python fallback; sampling within <=40 gates, <=4 lanes.'),
  'C06': dict(technique='deterministic simulation: configuration swarm over knobs, code paths, seeded GPU thread orders, lanes and storage reuse with poison faults',
-   text='Each seeded case runs as several configuration pairs that must agree bit-for-bit on port-level results: memory reuse (with dead storage poisoned at level boundaries and several batches on one object), fork stripping, CPU vs mock-GPU path under seeded thread orders and the repository launcher (assign/eval/capture/state-transfer kernels, abuf), lane count and lane position, propagation restricted to k lanes (with a lane-isolation monitor), delay-dataset selection modes (global, per simulation, random with per-simulation seeds that travel with the stimulus), a pickle round trip of the simulator object between batches, repeated propagation without re-assignment, capture times passed as float32 / float64 / Python numbers (also float64 values that round to a transition time); LogicSim likewise (options, lane count and position up to 300 lanes, a lane simulated alone or with perturbed neighbours). One genuine defect (F4) is recorded as a known finding.',
+   text='Each seeded case runs as several configuration pairs that must agree bit-for-bit on port-level results: memory reuse (with dead storage poisoned at level boundaries and several batches on one object), fork stripping, CPU vs mock-GPU path under seeded thread orders and the repository launcher (assign/eval/capture/state-transfer kernels, abuf), both paths restricted to k lanes in the later batches of one object, lane count and lane position, propagation restricted to k lanes (with a lane-isolation monitor), delay-dataset selection modes (global, per simulation, random with per-simulation seeds that travel with the stimulus), a pickle round trip of the simulator object between batches, repeated propagation without re-assignment, capture times passed as float32 / float64 / Python numbers (also float64 values that round to a transition time); LogicSim likewise (options, lane count and position up to 300 lanes, a lane simulated alone or with perturbed neighbours). One genuine defect (F4) is recorded as a known finding.',
    ref='5.3', note='Exact 0/1 stimuli; sd=0; pure-Python fallback; the purely configurational pairs (dataset selection, lane position on LogicSim) contain no schedule or fault and are counted as fault-free differential.'),
  'C16': dict(technique='deterministic simulation: fault injection through the code\'s own inject_cb seam, event-history checks and refinement against a cut-circuit reference',
    text='The harness callback is monitor and fault injector: seeded fault plans overwrite signals in chosen lanes and cycles (c_prop and cycle(k)); the recorded event history is checked for exactly-once, dependency order, identity and view semantics, and per cycle and lane group the results and every value any callback saw must equal the callback-free simulation of the cut circuit in which each injected line is a fresh primary input. Untouched callbacks must leave s[1] and c bit-identical in all three logics, whatever the callable is (function, partial, method, falsy object) and whatever it returns; lane counts range from 1 to 40 000 (more than 4096 bytes per signal); a callback-free propagation on the same object afterwards - with or without a new assignment - must give the fault-free results again.',
